@@ -165,15 +165,17 @@ class Fold:
     update cannot be confused with the state the fold was taken in.
     CPython reading: the loop itself."""
 
-    def __init__(self, name, ret_sort, init, step, heap_fields=(), objects=False):
+    def __init__(self, name, ret_sort, init, step, heap_fields=(), objects=False, unfold=1, range_lo=None):
         self.name = name
         self.ret_sort = ret_sort
         self.init = init
         self.step = step
         self.heap_fields = tuple(heap_fields)
         self.objects = objects
+        self.unfold = unfold
+        self.range_lo = range_lo     # index (in params) of the lower bound of a range fold
 
-    def __call__(self, env, seq, k, *params):
+    def __call__(self, env, seq, k, *params, _depth=None):
         if not sym(seq, k, *params):
             acc = self.init(env, *params)
             for idx in range(k):
@@ -207,8 +209,19 @@ class Fold:
             hv = dict(zip(self.heap_fields, harrs))
             elv = ObjView(it, el, hv) if self.objects else el
             fenv = env.with_heap(hv) if hasattr(env, 'with_heap') else env
-            ctx.assume(z3.Implies(k == 0, term == _lift(self.init(fenv, *params), None)))
-            ctx.assume(z3.Implies(k > 0, term == _lift(self.step(fenv, prev, elv, km1, *params), None)))
+            depth = self.unfold if _depth is None else _depth
+            if depth > 1:
+                self.__call__(env, seq, km1, *params, _depth=depth - 1)
+            ctx.assume(z3.Implies(k == 0, term == _lift(self.init(fenv, *params), None)), heavy=True)
+            ctx.assume(z3.Implies(km1 == 0, prev == _lift(self.init(fenv, *params), None)), heavy=True)
+            if self.range_lo is not None:
+                # range-fold emptiness lemma (by induction on k from the two defining equations, whose
+                # step leaves the accumulator unchanged for idx < lo): nothing processed yet below lo
+                ctx.assume(z3.Implies(k <= params[self.range_lo], term == _lift(self.init(fenv, *params), None)),
+                           heavy=True)
+                ctx.assume(z3.Implies(km1 <= params[self.range_lo], prev == _lift(self.init(fenv, *params), None)),
+                           heavy=True)
+            ctx.assume(z3.Implies(k > 0, term == _lift(self.step(fenv, prev, elv, km1, *params), None)), heavy=True)
         return term
 
 
